@@ -90,6 +90,7 @@ func c14Sign(c *Ctx, prog *load.Program) {
 	for _, pn := range r.Ex.Panics {
 		c.R.Fail("C14-1", "signSchnorr/no-panic", PosStr(prog, pn.Pos), fmt.Sprintf("a panic (%s) is reachable when {%s}", pn.Msg, GuardString(pn.Guard)))
 	}
+	indexSafety(c, "C14-1", "signSchnorr", pos, r)
 	acc, prob := acceptFormula(r, 1)
 	if prob != "" {
 		c.R.Unknown("C14-1", "signSchnorr", pos, prob)
